@@ -155,7 +155,8 @@ def oracle(ctx, case, jcase):
                          detail={'nested': repr(got)[:1500], 'standalone': repr(want)[:1500]})
 
 
-OWN_TRANSFORM = ('coerce', 'default', 'default_setter', 'rename', 'rename_handler', 'readonly', 'keysrules')
+OWN_TRANSFORM = ('coerce', 'default', 'default_setter', 'rename', 'rename_handler', 'readonly')
+KEY_TRANSFORM = ('coerce', 'rename', 'rename_handler', 'default', 'default_setter')
 
 
 def oracle_normalize(ctx, case, jcase):
@@ -170,6 +171,8 @@ def oracle_normalize(ctx, case, jcase):
     for f, rules in schema.items():
         if not isinstance(rules, dict) or f not in doc or doc[f] is None or any(k in rules for k in OWN_TRANSFORM):
             continue
+        if 'keysrules' in rules and (not isinstance(rules['keysrules'], dict) or mentions_key(rules['keysrules'], lambda k, x: k in KEY_TRANSFORM)):
+            continue          # the keys are renamed first: the sub-document is not the one the caller passed
         value = doc[f]
         checks = []
         if isinstance(value, dict) and isinstance(rules.get('schema'), dict) and 'valuesrules' not in rules:
